@@ -602,8 +602,25 @@ class Interp(object):
             name = e.attr
         raise PyRaise(name, ast.unparse(st.exc)[:200])
 
+    def _live_items(self, v):
+        """iteration over a list object is by index into the LIVE list (Python semantics: removing elements inside the loop
+        skips / shortens it); everything else is iterated over a snapshot"""
+        live = None
+        if isinstance(v, list):
+            live = v
+        elif isinstance(v, Obj) and '__base_list__' in v.attrs and '__iter__' not in v.cls.methods:
+            live = v.attrs['__base_list__']
+        if live is None:
+            for x in self.iterate(v):
+                yield x
+            return
+        i = 0
+        while i < len(live):
+            yield live[i]
+            i += 1
+
     def st_For(self, st, env):
-        items = self.iterate(self.eval(st.iter, env))
+        items = self._live_items(self.eval(st.iter, env))
         broke = False
         for n, x in enumerate(items):
             if n > MAX_LOOP:
